@@ -176,7 +176,10 @@ fn main() {
             0 | 1 | 2 => {
                 let (d, td, p) = gen_decs(&mut rng);
                 let price = gen_price(&mut rng, d, p);
-                let r = Decimal::try_from_price(price, d, td, p);
+                let Some(r) = no_panic(move || Decimal::try_from_price(price, d, td, p)) else {
+                    emit("try_from_price/panic", &format!("TryFromPrice {} {} {} {} (Err 9) None", z(price), d, td, p));
+                    continue;
+                };
                 let u = match &r {
                     Ok(dec) => {
                         let dec = *dec;
@@ -227,7 +230,11 @@ fn main() {
                 let y = match rng.below(4) { 0 => gen_price(&mut rng, d, p), 1 => x, 2 => x.wrapping_add(rng.uint(32)), _ => x.wrapping_sub(rng.below(1000) as u128) };
                 let (mn, mx) = if rng.chance(4, 5) { (x.min(y), x.max(y)) } else { (x, y) };
                 let pfp = PriceFeedPrice::new(d, 0, mn, mn, mx, 0);
-                let r = pfp.try_to_price(&token_config(td, p));
+                let tc = token_config(td, p);
+                let Some(r) = no_panic(move || pfp.try_to_price(&tc)) else {
+                    emit("feed_to_price/panic", &format!("FeedToPrice {} {} {d} {td} {p} (Err 9)", z(mn), z(mx)));
+                    continue;
+                };
                 let (tag, rs) = match &r {
                     Ok(pr) => ("feed_to_price/ok", format!("(Ok (({}, {}), ({}, {})))", pr.min.value, pr.min.decimal_multiplier, pr.max.value, pr.max.decimal_multiplier)),
                     Err(DecimalError::ExceedMaxDecimals) => ("feed_to_price/err_decimals", "(Err 1)".to_string()),
